@@ -32,6 +32,7 @@ type propConfig struct {
 var propConfigs = map[string]propConfig{
 	"C17": {},
 	"C09": {Gen: true},
+	"C10": {Gen: true},
 }
 
 var pathSuffix = regexp.MustCompile(`@path\d+$`)
